@@ -747,6 +747,12 @@ def predicates_weights(ctx, case, impl):
         return
     if any(not (x >= 0.0) for x in f):
         ctx.violation(P_FJ, 'negative-fraction', f'f = {f}', case=case, impl=f, predicate='f_j >= 0')
+    # the consumer of the partition of unity (signal_generator.py: rss.random.choice(..., p=ds_weights))
+    try:
+        np.random.RandomState(1).choice(len(f), size=3, p=np.array(f))
+    except ValueError as ex:
+        ctx.violation(P_FJ, 'rejected-as-probabilities', f'numpy rejects f_j as a probability vector: {ex}',
+                      case=case, impl=f, predicate='f_j usable as p= of RandomState.choice')
     if not abs(math.fsum(f) - 1.0) <= 8 * EPS:
         ctx.violation(P_FJ, 'sum-not-one', f'sum f_j = {math.fsum(f)!r}', case=case, impl=f, predicate='|sum_j f_j - 1| <= 8 eps')
     for j in range(case['J']):
